@@ -2182,18 +2182,39 @@ impl HnswBackend {
 
         // Crash-safe ordering:
         // 1) Persist snapshot pointer while keeping full WAL segment list.
-        // 2) Compact WAL files.
+        // 2) Decide which WAL segments the snapshot fully covers.
         // 3) Persist pruned WAL segment list.
+        // 4) Delete the covered files. A crash before this step leaves unlisted files
+        //    behind, which recovery ignores; deleting first would leave listed-but-missing
+        //    segments, which strict recovery refuses.
         manifest.save(&manifest_path)?;
 
         // WAL Compaction: Delete old WAL segments that are fully captured in the snapshot.
         // This prevents unbounded disk usage growth when WAL rotation is enabled.
-        let compacted = self.compact_old_wal_segments(
+        let covered_segments = self.compact_old_wal_segments(
             &persistence.data_dir,
             last_wal_seq,
             snapshot.timestamp,
             &mut manifest,
         )?;
+
+        manifest.latest_snapshot_wal_seq = Some(last_wal_seq);
+        manifest.save(&manifest_path)?;
+
+        let mut compacted = 0usize;
+        for wal_path in &covered_segments {
+            match std::fs::remove_file(wal_path) {
+                Ok(()) => compacted += 1,
+                Err(e) if e.kind() == std::io::ErrorKind::NotFound => {}
+                Err(e) => {
+                    error!(
+                        wal_segment = %wal_path.display(),
+                        error = %e,
+                        "failed to delete old WAL segment",
+                    );
+                }
+            }
+        }
         if compacted > 0 {
             info!(
                 compacted_segments = compacted,
@@ -2201,9 +2222,6 @@ impl HnswBackend {
                 "WAL compaction complete"
             );
         }
-
-        manifest.latest_snapshot_wal_seq = Some(last_wal_seq);
-        manifest.save(&manifest_path)?;
 
         // Reset insert counter
         *persistence.inserts_since_snapshot.write() = 0;
@@ -2983,13 +3001,13 @@ impl HnswBackend {
         snapshot_last_wal_seq: u64,
         snapshot_timestamp: u64,
         manifest: &mut Manifest,
-    ) -> Result<usize> {
-        let mut deleted_count = 0;
+    ) -> Result<Vec<PathBuf>> {
+        let mut covered_segments = Vec::new();
         let mut segments_to_keep = Vec::new();
 
         if snapshot_last_wal_seq == 0 && snapshot_timestamp == 0 {
             warn!("snapshot has no sequence or timestamp; skipping WAL compaction for safety");
-            return Ok(0);
+            return Ok(covered_segments);
         }
 
         // Always keep the last WAL segment (active WAL)
@@ -3076,33 +3094,15 @@ impl HnswBackend {
             }
 
             if all_entries_covered {
-                match std::fs::remove_file(&wal_path) {
-                    Ok(()) => {
-                        debug!(
-                            wal_segment = wal_name,
-                            wal_max_seq = max_seq,
-                            wal_max_ts = max_timestamp,
-                            snapshot_seq = snapshot_last_wal_seq,
-                            snapshot_ts = snapshot_timestamp,
-                            "deleted old WAL segment",
-                        );
-                        deleted_count += 1;
-                    }
-                    Err(e) if e.kind() == std::io::ErrorKind::NotFound => {
-                        warn!(
-                            wal_segment = wal_name,
-                            "WAL segment already missing (skipping)"
-                        );
-                    }
-                    Err(e) => {
-                        error!(
-                            wal_segment = wal_name,
-                            error = %e,
-                            "failed to delete old WAL segment",
-                        );
-                        segments_to_keep.push(wal_name.clone());
-                    }
-                }
+                debug!(
+                    wal_segment = wal_name,
+                    wal_max_seq = max_seq,
+                    wal_max_ts = max_timestamp,
+                    snapshot_seq = snapshot_last_wal_seq,
+                    snapshot_ts = snapshot_timestamp,
+                    "old WAL segment fully covered by snapshot",
+                );
+                covered_segments.push(wal_path);
             } else {
                 segments_to_keep.push(wal_name.clone());
             }
@@ -3111,7 +3111,7 @@ impl HnswBackend {
         // Update manifest with remaining segments
         manifest.wal_segments = segments_to_keep;
 
-        Ok(deleted_count)
+        Ok(covered_segments)
     }
 }
 
